@@ -155,20 +155,26 @@ def obligations(tier):
             add_g("decomposition._constrained_cp:initialize_constrained_parafac", f"N={N},init={init}", setup, call, post, dict(order=N, init=init),
                   "every initial factor is a proximal-operator output", assumptions=lambda I: [R <= n for n in dims(len(I["X"].shape))] if I["_S"].name == "sym" else [])
         # admm: every exit returns the prox output as primal variable
-        for n_inner in (1, 2):
-            def setup(S):
-                n = atom("n")
-                return dict(_S=S, UtM=S.input("UtM", [n, R]), UtU=S.input("UtU", [R, R]), x=S.input("x", [n, R]), dual=S.input("dual", [n, R]))
-            def call(I, n_inner=n_inner):
-                S = I["_S"]
-                rec = []
-                with stubbed(adm, proximal_operator=prox_stub_factory(S, rec)):
-                    x, xs, dual = adm.admm(I["UtM"], I["UtU"], I["x"], I["dual"], n_iter_max=n_inner, n_const=3, order=1, simplex=1.0)
-                return dict(x=x, rec=rec)
-            def post(S, I, r):
-                return [("the returned primal variable is the last proximal-operator output, requested for the right mode and constraint",
-                         (r["x"] is r["rec"][-1]["out"], r["rec"][-1]["order"], r["rec"][-1]["kw"]), (True, 1, {"simplex": 1.0}))]
-            add_g("solvers.admm:admm", f"n_iter_max={n_inner}", setup, call, post, dict(inner_budget=n_inner), "returned primal variable is a proximal-operator output on every exit")
+        # (the specification reaches admm as given by the caller: scalar, per-mode dict, per-mode list - the mode is selected by `order`)
+        for spec_name, spec in (("scalar", dict(simplex=1.0)), ("dict on the mode only", dict(simplex={1: 1.0})), ("list with holes", dict(non_negative=[None, True, None])),
+                                ("dict, other modes differently constrained", dict(simplex={1: 1.0}, non_negative={2: True}))):
+            for n_inner in (1, 2):
+                def setup(S):
+                    n = atom("n")
+                    return dict(_S=S, UtM=S.input("UtM", [n, R]), UtU=S.input("UtU", [R, R]), x=S.input("x", [n, R]), dual=S.input("dual", [n, R]))
+                def call(I, n_inner=n_inner, spec=spec):
+                    S = I["_S"]
+                    rec = []
+                    with stubbed(adm, proximal_operator=prox_stub_factory(S, rec)):
+                        x, xs, dual = adm.admm(I["UtM"], I["UtU"], I["x"], I["dual"], n_iter_max=n_inner, n_const=3, order=1, **spec)
+                    return dict(x=x, rec=rec)
+                def post(S, I, r, spec=spec):
+                    if not r["rec"]:
+                        return [("the proximal operator is applied at least once", 0, 1)]
+                    return [("the returned primal variable is the last proximal-operator output, requested for the right mode and constraint",
+                             (r["x"] is r["rec"][-1]["out"], r["rec"][-1]["order"], r["rec"][-1]["kw"]), (True, 1, spec))]
+                add_g("solvers.admm:admm", f"n_iter_max={n_inner},spec={spec_name}", setup, call, post, dict(inner_budget=n_inner, specification=spec_name),
+                      "returned primal variable is a proximal-operator output on every exit")
         # constrained_parafac: after a sweep every non-fixed mode holds admm's primal variable; suffix returns it
         for fixed in ([], [0]):
             def setup(S, N=N):
@@ -178,9 +184,9 @@ def obligations(tier):
                 S = I["_S"]
                 rec = []
                 def admm_stub(UtM, UtU, x, dual_var, order=None, **kw):
-                    out = G.opaque_tensor("ADMMX", list(x.shape), x.dtype) if S.name == "sym" else np.abs(np.asarray(x))
+                    out = G.opaque_tensor("ADMMX", list(x.shape), G._result_dtype(UtM, UtU, x, dual_var)) if S.name == "sym" else np.abs(np.asarray(x) + 0 * np.asarray(dual_var) + 0 * np.sum(np.asarray(UtU)))
                     rec.append(dict(order=order, out=out, kw={k: v for k, v in kw.items() if v is not None and k in PARAM}))
-                    aux = G.opaque_tensor("ADMMAUX", [x.shape[1], x.shape[0]], x.dtype) if S.name == "sym" else np.asarray(x).T.copy()
+                    aux = G.opaque_tensor("ADMMAUX", [x.shape[1], x.shape[0]], G._result_dtype(UtM, UtU, x, dual_var)) if S.name == "sym" else np.asarray(x).T.copy()
                     return out, aux, dual_var
                 cut = LoopCut(_cc.constrained_parafac)
                 with stubbed(_cc, initialize_constrained_parafac=lambda *a, **k: CPTensor((None, list(I["fs"]))), admm=admm_stub):
